@@ -304,13 +304,15 @@ class GetArea(Contract):
             if counts[i] >= 1:
                 near.append(L.or_(*[within_nearest(axis, i, iv) for iv in intervals]))
             if counts[i] >= 2:
-                near2.append(L.and_(*[within_nearest(axis, i, iv) for iv in intervals]))
+                # counted c times: at least c of the intervals reach the point (nearest-point slack included)
+                c = min(counts[i], m)
+                near2.append(L.or_(*[L.and_(*[within_nearest(axis, i, intervals[j]) for j in sub]) for sub in itertools.combinations(range(m), c)]))
         yield "absent_clp_not_counted", L.and_(*absent)
         yield "inside_interval_is_counted", L.and_(*counted)
         yield "inside_both_counted_twice", L.and_(*twice)
         yield "counted_at_most_once_per_interval", L.and_(*atmost)
         yield "counted_only_within_nearest_points", L.and_(*near)
-        yield "counted_twice_only_within_both", L.and_(*near2)
+        yield "counted_c_times_only_within_c_intervals", L.and_(*near2)
 
 
 def _same(a, b):
@@ -332,6 +334,11 @@ def _area_sweep(self, tier, seed):
     def env(case, rng):
         e = sorted_env("a", case["n"], rng, -20, 20)
         pts = list(e.values())
+        # the postcondition recognises a clp by its value: all clp values distinct
+        vals = rng.sample(range(-3000, 3000), 2 * case["n"])
+        for i in range(case["n"]):
+            for k in (0, 1):
+                e[f"c{i}_{k}"] = vals[2 * i + k] / 1000.0
         for j in range(case["m"]):
             for nm in (f"lo{j}", f"hi{j}"):
                 e[nm] = rng.choice(pts) if rng.random() < 0.5 else round(rng.uniform(-25, 25), 3)
